@@ -303,23 +303,21 @@ theorem mid_eq_final_of_not_external {f : Nat → Option AddrInfo} {a : Nat}
     | available fs => simp [FramesResult.resolved]
     | external r => exact absurd hfr (h info r hfa)
 
-/-- `symbolicate_requested_addresses_for_lib` never panics, and — when the library loads — the table it
-returns has, for every requested address, exactly the entry a direct lookup determines. -/
-theorem symbolicateLib_spec (look : Look) (extOrder) (hext : ExtOrderOk extOrder) (lib : Lib)
-    (addresses : List Nat) :
-    ∃ r, symbolicateLib look extOrder lib addresses = .ok r ∧
+/-- the lookup passes never panic, and — when the library loads — the table they return has, for every
+address of the list they are given, exactly the entry a direct lookup determines (and nothing else) -/
+theorem lookupAddresses_spec (look : Look) (extOrder) (hext : ExtOrderOk extOrder) (lib : Lib)
+    (addrs : List Nat) :
+    ∃ r, lookupAddresses look extOrder lib addrs = .ok r ∧
       match look lib with
       | .error e => r = .error e
       | .ok f => ∃ tbl, r = .ok tbl ∧ keysSorted tbl ∧
-          ∀ x, btGet tbl x = if x ∈ addresses then some (finalEntry f x) else none := by
-  unfold symbolicateLib
+          ∀ x, btGet tbl x = if x ∈ addrs then some (finalEntry f x) else none := by
+  unfold lookupAddresses
   cases hl : look lib with
   | error e => exact ⟨.error e, rfl, rfl⟩
   | ok f =>
     simp only
-    generalize haddrs : dedupAdj (sortNat addresses) = addrs
-    have hmem : ∀ x, x ∈ addrs ↔ x ∈ addresses := by
-      intro x; rw [← haddrs]; exact mem_sortDedup addresses x
+    have hmem : ∀ x, x ∈ addrs ↔ x ∈ addrs := fun _ => Iff.rfl
     have hpre : ∀ x ∈ addrs, btGet (forAddresses addrs) x = some none ∨
         btGet (forAddresses addrs) x = some (midEntry f x) := by
       intro x hx; left; rw [btGet_forAddresses]; simp [hx]
@@ -395,7 +393,7 @@ theorem symbolicateLib_spec (look : Look) (extOrder) (hext : ExtOrderOk extOrder
       exact keysSorted_forAddresses addrs
     · intro x
       rw [s2]
-      by_cases hx : x ∈ addresses
+      by_cases hx : x ∈ addrs
       · have hx' : x ∈ addrs := (hmem x).mpr hx
         rw [if_pos hx]
         by_cases hex : x ∈ (extOrder ext).map Prod.fst
@@ -415,6 +413,27 @@ theorem symbolicateLib_spec (look : Look) (extOrder) (hext : ExtOrderOk extOrder
           · simp at h
           · rw [hpx] at h1; exact hx' h1
         rw [if_neg hex, e2, if_neg hx', btGet_forAddresses, if_neg hx']
+
+/-- `symbolicate_requested_addresses_for_lib` never panics, and — when the library loads — the table it
+returns has, for every requested address, exactly the entry a direct lookup determines. -/
+theorem symbolicateLib_spec (look : Look) (extOrder) (hext : ExtOrderOk extOrder) (lib : Lib)
+    (addresses : List Nat) :
+    ∃ r, symbolicateLib look extOrder lib addresses = .ok r ∧
+      match look lib with
+      | .error e => r = .error e
+      | .ok f => ∃ tbl, r = .ok tbl ∧ keysSorted tbl ∧
+          ∀ x, btGet tbl x = if x ∈ addresses then some (finalEntry f x) else none := by
+  unfold symbolicateLib
+  obtain ⟨r, h1, h2⟩ := lookupAddresses_spec look extOrder hext lib (dedupAdj (sortNat addresses))
+  refine ⟨r, h1, ?_⟩
+  cases hl : look lib with
+  | error e => rw [hl] at h2; exact h2
+  | ok f =>
+    rw [hl] at h2
+    obtain ⟨tbl, t1, t2, t3⟩ := h2
+    refine ⟨tbl, t1, t2, fun x => ?_⟩
+    rw [t3]
+    simp only [mem_sortDedup]
 
 /-- mod.rs:54-66 -/
 theorem symbolicateAll_spec (look : Look) (extOrder) (hext : ExtOrderOk extOrder)
